@@ -55,6 +55,9 @@ pub struct Entry {
     pub name: &'static str,
     pub elem: usize,
     pub canon: Canon,
+    /// collection of zero-sized elements: decoding loops over the declared length without
+    /// consuming input, so hostile lengths are kept <= 100 000 (cf. O2)
+    pub zst: bool,
     pub gen: fn(&mut Rng) -> (Vec<u8>, Result<(), String>),
     pub dec: fn(&[u8]) -> DecOut,
 }
@@ -338,7 +341,7 @@ impl G for WasmVersion {
 
 macro_rules! ent {
     ($v:ident, $name:literal, $t:ty, $canon:expr, $elem:expr) => {
-        $v.push(Entry { name: $name, elem: $elem, canon: $canon, gen: |r| rt::<$t>(&<$t as G>::g(r), $canon), dec: dec_as::<$t> });
+        $v.push(Entry { name: $name, elem: $elem, canon: $canon, zst: false, gen: |r| rt::<$t>(&<$t as G>::g(r), $canon), dec: dec_as::<$t> });
     };
     ($v:ident, $name:literal, $t:ty) => {
         ent!($v, $name, $t, Canon::Bytes, 64)
@@ -398,7 +401,7 @@ pub fn registry() -> Vec<Entry> {
     ent!(v, "AttributeTag", AttributeTag);
     ent!(v, "AttributeValue", AttributeValue);
     // Policy has no PartialEq: compared through its Debug rendering
-    v.push(Entry { name: "OwnedPolicy", elem: 64, canon: Canon::Bytes, gen: |r| rt_by::<OwnedPolicy>(&G::g(r), Canon::Bytes, |a, b| format!("{:?}", a) == format!("{:?}", b)), dec: |b| dec_by::<OwnedPolicy>(b, |a, b| format!("{:?}", a) == format!("{:?}", b)) });
+    v.push(Entry { name: "OwnedPolicy", elem: 64, canon: Canon::Bytes, zst: false, gen: |r| rt_by::<OwnedPolicy>(&G::g(r), Canon::Bytes, |a, b| format!("{:?}", a) == format!("{:?}", b)), dec: |b| dec_by::<OwnedPolicy>(b, |a, b| format!("{:?}", a) == format!("{:?}", b)) });
     ent!(v, "ModuleReference", hashes::ModuleReference);
     ent!(v, "ParameterHash", hashes::HashBytes<u8>);
     ent!(v, "PublicKeyEd25519", PublicKeyEd25519);
@@ -413,6 +416,28 @@ pub fn registry() -> Vec<Entry> {
     ent!(v, "Vec<Address>", Vec<Address>, Canon::Bytes, 64);
     ent!(v, "Vec<(AccountAddress,Amount)>", Vec<(AccountAddress, Amount)>, Canon::Bytes, 64);
     ent!(v, "Option<OwnedReceiveName>", Option<OwnedReceiveName>);
+    // collections of zero-sized elements (the element count is the only content)
+    fn zlen(r: &mut Rng) -> usize {
+        match r.below(8) {
+            0 => 0,
+            1 => 1,
+            2 => 5,
+            3 => 70_000,
+            _ => r.below(300) as usize,
+        }
+    }
+    v.push(Entry { name: "Vec<()>", elem: 8, canon: Canon::Bytes, zst: true, gen: |r| rt::<Vec<()>>(&vec![(); zlen(r)], Canon::Bytes), dec: dec_as::<Vec<()>> });
+    v.push(Entry { name: "Vec<((),())>", elem: 8, canon: Canon::Bytes, zst: true, gen: |r| rt::<Vec<((), ())>>(&vec![((), ()); zlen(r)], Canon::Bytes), dec: dec_as::<Vec<((), ())>> });
+    v.push(Entry {
+        name: "Vec<PhantomData<u32>>",
+        elem: 8,
+        canon: Canon::Bytes,
+        zst: true,
+        gen: |r| rt::<Vec<std::marker::PhantomData<u32>>>(&vec![std::marker::PhantomData; zlen(r)], Canon::Bytes),
+        dec: dec_as::<Vec<std::marker::PhantomData<u32>>>,
+    });
+    v.push(Entry { name: "Vec<[u8;0]>", elem: 8, canon: Canon::Bytes, zst: true, gen: |r| rt::<Vec<[u8; 0]>>(&vec![[0u8; 0]; zlen(r)], Canon::Bytes), dec: dec_as::<Vec<[u8; 0]>> });
+    v.push(Entry { name: "(u8,Vec<()>,u8)", elem: 8, canon: Canon::Bytes, zst: true, gen: |r| rt::<(u8, Vec<()>, u8)>(&(r.next() as u8, vec![(); zlen(r)], r.next() as u8), Canon::Bytes), dec: dec_as::<(u8, Vec<()>, u8)> });
     v
 }
 
@@ -469,6 +494,36 @@ fn case_binary(sh: &mut Shard, reg: &[Entry], idx: u64, sub: u64, r: &mut Rng, s
     sh.hit("bin.roundtrip");
     if let Err(d) = rtres {
         sh.violate(idx, "roundtrip", format!("roundtrip:{}:{}", e.name, util::hex_sig(&b)), format!("{}: {}", e.name, d), json!({"mode": "value", "type": e.name, "input_hex": vmon_core::hex(&b)}));
+    }
+    if e.zst {
+        // hostile inputs with declared lengths kept small: every truncation, extension, and the
+        // length field set to values <= 100 000 (at its offset: 0, or 1 for the tuple)
+        eval(sh, e, idx, "valid", &b, seen);
+        for off in 0..b.len() {
+            eval(sh, e, idx, "truncate_at", &b[..off], seen);
+        }
+        let at = if e.name.starts_with('(') { 1 } else { 0 };
+        for _ in 0..40 {
+            let mut m = b.clone();
+            if m.len() >= at + 4 {
+                let v = match r.below(4) {
+                    0 => r.below(4),
+                    1 => 100_000,
+                    _ => r.below(100_000),
+                } as u32;
+                m[at..at + 4].copy_from_slice(&v.to_le_bytes());
+            }
+            if r.chance(1, 2) {
+                let k = r.below(6) as usize;
+                m.extend(r.bytes(k));
+            }
+            if at == 1 && r.chance(1, 3) {
+                m[0] = r.next() as u8;
+            }
+            eval(sh, e, idx, "zst_length", &m, seen);
+        }
+        util::nt(sh, vmon_core::mix(&[1, vmon_core::fnv(e.name.as_bytes()), vmon_core::fast_hash(&b)]));
+        return;
     }
     let (other, _) = (e.gen)(r);
     let n = b.len();
@@ -899,6 +954,81 @@ fn case_text(sh: &mut Shard, idx: u64, r: &mut Rng) {
                 }
                 Ok(Err(_)) => {}
             }
+        }
+    }
+    // ---- receive names: construct(contract, entrypoint) and the split at the FIRST dot
+    for _ in 0..4 {
+        let cn = match r.below(8) {
+            0 => 0,
+            1 => 94,
+            _ => r.below(30) as usize,
+        };
+        let contract = name_chars(r, cn, false);
+        // entrypoints with 0, 1, 2 dots, also leading / trailing / adjacent
+        let en = match r.below(8) {
+            0 => 0,
+            1 => 99usize.saturating_sub(cn + 1),
+            2 => 100usize.saturating_sub(cn + 1),
+            3 => 101usize.saturating_sub(cn + 1),
+            _ => r.below(30) as usize,
+        };
+        let mut ep: Vec<char> = name_chars(r, en, false).chars().collect();
+        let dots = r.below(4) as usize;
+        for _ in 0..dots.min(ep.len()) {
+            let i = match r.below(3) {
+                0 => 0,
+                1 => ep.len() - 1,
+                _ => r.below(ep.len() as u64) as usize,
+            };
+            ep[i] = '.';
+        }
+        let ep: String = ep.into_iter().collect();
+        let ndots = ep.matches('.').count();
+        sh.evaluations += 1;
+        let full = format!("{}.{}", contract, ep);
+        let init = format!("init_{}", contract);
+        let case = || json!({"contract": contract, "entrypoint": ep});
+        let got = vmon_core::catch(|| {
+            let c = ContractName::new(&init).map_err(|e| format!("contract name: {:?}", e))?;
+            let e = EntrypointName::new(&ep).map_err(|e| format!("entrypoint name: {:?}", e))?;
+            let rn = OwnedReceiveName::construct(c, e).map_err(|e| format!("construct: {:?}", e))?;
+            let r2 = rn.as_receive_name();
+            let en: &str = r2.entrypoint_name().into();
+            Ok::<_, String>((r2.get_chain_name().to_string(), r2.contract_name().to_string(), en.to_string()))
+        });
+        let valid = init.len() <= 100 && ep.len() < 100 && full.len() <= 100;
+        match got {
+            Err(p) => viol!("text-panic", format!("text-panic:ReceiveName::construct:{}", full), format!("constructing / decomposing the receive name {:?} panicked: {}", full, p), case()),
+            Ok(Err(m)) => {
+                sh.hit("receive_name.construct.rejected");
+                if valid {
+                    viol!("text-grammar", format!("receive-construct-reject:{}", full), format!("construct rejects contract {:?} entrypoint {:?}: {}", contract, ep, m), case());
+                }
+            }
+            Ok(Ok((chain, c2, e2))) => {
+                sh.hit("receive_name.construct.ok");
+                sh.hit(&format!("receive_name.entrypoint_dots.{}", ndots.min(2)));
+                if !valid || chain != full || c2 != contract || e2 != ep {
+                    viol!("receive-name-parts", format!("receive-parts:{}", full), format!("construct({:?}, {:?}) gives chain name {:?}, contract_name() {:?}, entrypoint_name() {:?}", contract, ep, chain, c2, e2), case());
+                }
+            }
+        }
+        // an arbitrary valid receive name splits at its first dot
+        let rn = OwnedReceiveName::g(r);
+        let chain = rn.to_string();
+        let (wc, we) = chain.split_once('.').expect("generated with a dot");
+        sh.evaluations += 1;
+        sh.hit("receive_name.split_first_dot");
+        if chain.matches('.').count() >= 2 {
+            sh.hit("receive_name.split_first_dot.several_dots");
+        }
+        match vmon_core::catch(|| {
+            let r2 = rn.as_receive_name();
+            let en: &str = r2.entrypoint_name().into();
+            (r2.contract_name().to_string(), en.to_string())
+        }) {
+            Ok((c2, e2)) if c2 == wc && e2 == we => {}
+            other => viol!("receive-name-parts", format!("receive-split:{}", chain), format!("receive name {:?} decomposes into {:?}, expected ({:?}, {:?})", chain, other, wc, we), json!({"receive_name": chain})),
         }
     }
     // ---- grammar recognisers vs validators
